@@ -6,7 +6,7 @@ Decides (static, path-sensitive typestate over the instantiated bodies, see DESI
   R4 look-ahead rules leave the cursor at ENTRY on every exit, R5 the same for catch handlers.
 for every function with the rule-boundary signature under /repo/include, in both rewind modes."""
 import collections
-from .. import core, units, rewind
+from .. import core, units, rewind, repo_units
 from ..mon_base import is_match_root, fn_mode, fn_apply_mode
 
 LOOKAHEAD = {   # class templates documented as never consuming (doc/Rule-Reference.md)
@@ -25,60 +25,71 @@ def site_of(fn):
     return '%s::%s' % (core.relfile(fn['pat']), q.replace('tao::pegtl::', ''))
 
 
-def run(tier):
-    R = core.Result('C02', tier)
-    ulist = list(units.RULES)
-    paths = core.extract(ulist)
-    if tier == 'thorough':
-        from .. import repo_units
-        paths += repo_units.extract_all(R)
-    db = core.DB(paths)
+def analyse_unit(path):
+    """one extracted unit -> serialisable per-instantiation results (runs in a worker process)"""
+    db = core.DB([path])
     roots = [f for f in db.order if is_match_root(f) and '/tao/pegtl/' in f['pat']]
-    nf, rounds = rewind.compute_never_false(db, roots)
-    R.cov['units'] = db.units; R.cov['functions_extracted'] = len(db.fns)
-    R.cov['never_false_callees'] = len(nf)
-    analysed = collections.defaultdict(set)   # pattern -> set of modes
-    steps_total = 0; paths_total = 0
-    seen_shapes = set()
+    an = rewind.Analyzer(db)
+    out = {'fns': [], 'broken': [], 'inv': [], 'functions_extracted': len(db.fns)}
+    seen = set()
     for fn in roots:
         shape = (core.rel(fn['pat']), fn_mode(fn), fn_apply_mode(fn), fn['disp'])
-        if shape in seen_shapes: continue
-        seen_shapes.add(shape)
+        if shape in seen: continue
+        seen.add(shape)
         pat = core.rel(fn['pat'])
-        try:
-            res, reps, steps = rewind.analyse(db, fn, nf)
-        except rewind.Budget:
-            R.broke('step budget exceeded in %s (%s)' % (fn['disp'][:160], pat)); continue
-        except rewind.Unmodelled as u:
-            R.broke('unmodelled construct: %s in %s' % (u, fn['disp'][:160])); continue
+        res, reps, steps = an.get(fn)
+        if res == 'budget':
+            out['broken'].append('step budget exceeded in %s (%s)' % (fn['disp'][:160], pat)); continue
+        if res == 'unmodelled':
+            out['broken'].append('unmodelled construct: %s in %s' % (reps, fn['disp'][:160])); continue
+        reps = list(reps)
         if not res:
-            R.broke('no completed path through %s' % fn['disp'][:160]); continue
-        steps_total += steps; paths_total += sum(res.values())
-        analysed[pat].add(fn_mode(fn))
-        mode = fn_mode(fn)
-        # R4 look-ahead
+            out['broken'].append('no completed path through %s' % fn['disp'][:160]); continue
         cls = (fn.get('cls') or {}).get('tn') or (fn.get('cls') or {}).get('q')
         if cls in LOOKAHEAD:
             for (kind, val, pos), n in res.items():
                 if kind == 'return' and pos != 'E':
                     reps.append(('R4', 'look-ahead rule returns %s with the cursor %s' % (val, pos), fn['loc'], ()))
-        nexit = sum(1 for k in res if k[0] == 'return')
-        R.ob(ok=not reps, key=(pat, mode, fn_apply_mode(fn), fn['disp']))
-        for r in reps:
-            R.violation(r[0], site_of(fn), '%s [mode %s]' % (r[1], MODE[mode]),
-                        {'function': fn['disp'], 'pattern': pat, 'at': core.rel(r[2]), 'path': [list(map(str, t)) for t in r[3]][-40:]},
-                        key=(r[0], site_of(fn), MODE[mode], r[1]))
-        R.sample({'function': fn['disp'][:200], 'pattern': pat, 'mode': MODE[mode], 'exits': {str(k): v for k, v in res.items()}})
+        out['fns'].append({'shape': shape, 'pat': pat, 'mode': fn_mode(fn), 'amode': fn_apply_mode(fn), 'disp': fn['disp'], 'site': site_of(fn),
+                           'steps': steps, 'paths': sum(res.values()), 'exits': {str(k): v for k, v in res.items()},
+                           'reports': [(r[0], r[1], core.rel(r[2]), [list(map(str, t)) for t in r[3]][-40:]) for r in reps]})
+    for it in db.inventory.values():
+        if it['n'] == 'match' and '/tao/pegtl/' in it['loc'] and is_rule_match_pattern(it):
+            out['inv'].append((core.rel(it['loc']), it['q']))
+    return out
+
+
+def run(tier):
+    R = core.Result('C02', tier)
+    paths = core.extract(list(units.RULES))
+    if tier == 'thorough':
+        paths += repo_units.extract_all(R)
+    results = repo_units.map_units('sa.checks.c02', 'analyse_unit', paths)
+    analysed = collections.defaultdict(set); inv = {}
+    seen_shapes = set(); steps_total = 0; paths_total = 0; nfn = 0
+    for path in paths:
+        res = results[path]
+        nfn += res['functions_extracted']
+        for b in res['broken']: R.broke(b)
+        for loc, q in res['inv']: inv[loc] = q
+        for f in res['fns']:
+            shape = tuple(f['shape'])
+            if shape in seen_shapes: continue
+            seen_shapes.add(shape)
+            analysed[f['pat']].add(f['mode'])
+            steps_total += f['steps']; paths_total += f['paths']
+            R.ob(ok=not f['reports'], key=shape)
+            for r in f['reports']:
+                R.violation(r[0], f['site'], '%s [mode %s]' % (r[1], MODE[f['mode']]),
+                            {'function': f['disp'], 'pattern': f['pat'], 'at': r[2], 'path': r[3]},
+                            key=(r[0], f['site'], MODE[f['mode']], r[1]))
+            R.sample({'function': f['disp'][:200], 'pattern': f['pat'], 'mode': MODE[f['mode']], 'exits': f['exits']})
+    R.cov['units'] = len(paths); R.cov['functions_extracted'] = nfn
     # coverage: every match pattern present in the headers must have been analysed
-    inv = [it for it in db.inventory.values() if it['n'] == 'match' and '/tao/pegtl/' in it['loc']]
-    missing = []
-    for it in inv:
-        loc = core.rel(it['loc'])
-        if loc.startswith('contrib/icu/'): continue
-        if not is_rule_match_pattern(it): continue
-        if loc not in analysed: missing.append(loc + ' ' + it['q'])
+    missing = [loc + ' ' + q for loc, q in inv.items() if not loc.startswith('contrib/icu/') and loc not in analysed]
     R.cov['match_patterns_in_headers'] = len(inv); R.cov['match_patterns_analysed'] = len(analysed)
     R.cov['instantiations_analysed'] = len(seen_shapes); R.cov['abstract_steps'] = steps_total; R.cov['paths'] = paths_total
+    R.cov['states'] = steps_total
     for m in sorted(missing):
         R.broke('match pattern present in the headers but not analysed: ' + m)
     if len(analysed) < 90:
